@@ -2175,7 +2175,7 @@ def external_modules(interp):
         'namedtuple': B('namedtuple', _namedtuple),
         'Counter': B('Counter', lambda it, *a, **k: CounterV(it, *a, **k)),
         'OrderedDict': TYPES['dict'],
-        'defaultdict': B('defaultdict', lambda it, *a: _unsup('defaultdict')),
+        'defaultdict': B('defaultdict', _defaultdict),
     })
     E['numbers'] = _mod('numbers', {
         'Real': TypeV('Real', lambda v: is_num(v) or isinstance(v, bool) or
@@ -2296,6 +2296,19 @@ def external_modules(interp):
     E['operator'] = _mod('operator', _operator_table(interp))
     E['functools'] = _mod('functools', _functools_table(interp))
     return E
+
+
+class DefaultDictV(dict):
+    """collections.defaultdict: a dict whose missing keys are created by the factory on item access"""
+    default_factory = None
+
+
+def _defaultdict(interp, factory=None, *args, **kw):
+    d = DefaultDictV()
+    d.default_factory = factory
+    if args or kw:
+        d.update(_mkdict(interp, *args, **kw))
+    return d
 
 
 class CallableNS:
